@@ -147,6 +147,34 @@ Print Assumptions C01_start_only_walk_refuted.
 Example C01_nv_walk_rho : visited_walk rho_next [0; 1; 2; 3]%N 0%N = Some [3; 2; 1; 0]%N.
 Proof. vm_compute. reflexivity. Qed.
 
+(* recursion = the other way not to terminate: every group of directly / mutually recursive functions of the anchor files (strongly
+   connected components of the generated call graph) has a ledger entry for exactly its member list; a group that follows
+   reference attributes needs an explicit measure (RDepthProved = C01_build_depth_bounded / C01_build_fuel_adequate; RGuarded = depth
+   limit, in-progress stack, node budget, marker instance limit); no stale entries *)
+Theorem C01_recursions_discharged :
+  forallb (rec_discharged_by rec_ledger) parser_recursions = true /\ forallb rec_entry_live rec_ledger = true.
+Proof. exact (conj recursions_discharged rec_ledger_tight). Qed.
+Print Assumptions C01_recursions_discharged.
+
+(* `for` loops (82 in the anchor files) end when their iterator does: every iterator type implemented in the anchor files has a
+   ledger entry for exactly its impl block (HrefIter = C01_href_iter_bounded; the four svgtree walks are argued, NOT proved), no
+   stale entry, and no std iterator source that never ends (cycle / repeat / from_fn / successors / open range) is used *)
+Theorem C01_iterators_discharged :
+  forallb (iter_discharged_by iter_ledger) parser_iterators = true /\ forallb iter_entry_live iter_ledger = true /\
+  parser_unbounded_sources = [].
+Proof. exact iterators_discharged. Qed.
+Print Assumptions C01_iterators_discharged.
+
+(* the id generators (LGenId: converter.rs gen_*_id, filter.rs gen_result): whatever ids are taken and wherever the counter
+   stands, the loop returns within |taken| + 1 iterations (the fuel) with a larger index whose id is not taken *)
+Theorem C01_gen_id_terminates : forall (taken : list N) (n : N),
+  exists r k, gen_id taken (S (length taken)) n = Some (r, k) /\ ~ In r taken /\ (n < r)%N.
+Proof. exact gen_id_terminates. Qed.
+Print Assumptions C01_gen_id_terminates.
+
+Example C01_nv_gen_id : gen_id [1; 2; 3; 5; 7]%N 6 0%N = Some (4%N, 3%nat).
+Proof. vm_compute. reflexivity. Qed.
+
 (* (c) the definition caches: requests for cacheable definitions cause at most one conversion per definition, in any order
    and however many requests there are (requests arrive one after the other: the converter is not re-entered for a
    definition in progress because reference cycles are removed first, C03); without the lookup every request converts.
